@@ -54,7 +54,7 @@ def _low(t, k):
 def twoadic(rec, seed, fn, k):
   nt, _ = _mods()
   nbits = 2 * k + 4
-  width = 4 * k + 12
+  width = 4 * k + 12 if k <= 10 else 6 * k + 16
   rec.functions('paranoid_crypto.lib.ntheory_util:%s' % fn)
   rec.bounds('every n with |n| < 2^%d (two\'s complement, width %d), k = %d' %
              (nbits, width, k))
@@ -76,7 +76,8 @@ def twoadic(rec, seed, fn, k):
       n = e.notes['n']
       odd = z3.Extract(0, 0, n.t) == 1
       mod8 = z3.Extract(2, 0, n.t) == 1
-      if not common.overflow_free(rec, e, fn):
+      if not common.overflow_free(rec, e, fn,
+                                  30000 if k <= 10 else 900000):
         continue
       if p.kind == 'raise':
         cls = 'raise'
